@@ -36,6 +36,8 @@ func genFlowFacts(repo string) (string, error) {
 	type key struct{ r, m string }
 	params := map[key][]string{}
 	var order []key
+	var parsed []*ast.File
+	pkgFuncs := map[string]bool{}
 	for _, fn := range files {
 		if strings.HasSuffix(fn, "_test.go") || strings.HasSuffix(fn, "_windows.go") {
 			continue
@@ -44,31 +46,58 @@ func genFlowFacts(repo string) (string, error) {
 		if err != nil {
 			return "", err
 		}
+		parsed = append(parsed, f)
+		for _, d := range f.Decls {
+			if fd, ok := d.(*ast.FuncDecl); ok && fd.Recv == nil {
+				pkgFuncs[fd.Name.Name] = true
+			}
+		}
+	}
+	for _, f := range parsed {
 		for _, d := range f.Decls {
 			fd, ok := d.(*ast.FuncDecl)
-			if !ok || fd.Body == nil || fd.Recv == nil || len(fd.Recv.List) == 0 || len(fd.Recv.List[0].Names) == 0 {
+			if !ok || fd.Body == nil {
 				continue
 			}
-			star, ok := fd.Recv.List[0].Type.(*ast.StarExpr)
-			if !ok {
-				continue
+			// a method of a layer type, or a package-level function (recvType "")
+			recvType, recv := "", ""
+			if fd.Recv != nil {
+				if len(fd.Recv.List) == 0 || len(fd.Recv.List[0].Names) == 0 {
+					continue
+				}
+				star, ok := fd.Recv.List[0].Type.(*ast.StarExpr)
+				if !ok {
+					continue
+				}
+				tid, ok := star.X.(*ast.Ident)
+				if !ok || !layerTypes[tid.Name] {
+					continue
+				}
+				recvType, recv = tid.Name, fd.Recv.List[0].Names[0].Name
 			}
-			id, ok := star.X.(*ast.Ident)
-			if !ok || !layerTypes[id.Name] {
-				continue
-			}
-			recv := fd.Recv.List[0].Names[0].Name
+			id := &ast.Ident{Name: recvType}
 			k := key{id.Name, fd.Name.Name}
 			order = append(order, k)
+			isParam := map[string]bool{}
 			for _, p := range fd.Type.Params.List {
 				for _, n := range p.Names {
 					params[k] = append(params[k], n.Name)
+					isParam[n.Name] = true
 				}
 			}
 			done := map[*ast.CallExpr]bool{}
 			classify := func(c *ast.CallExpr) (target, callee string, ok bool) {
+				if fid, ok := c.Fun.(*ast.Ident); ok && pkgFuncs[fid.Name] {
+					return "pkg", fid.Name, true
+				}
 				sel, ok := c.Fun.(*ast.SelectorExpr)
 				if !ok {
+					return "", "", false
+				}
+				if rid, ok := sel.X.(*ast.Ident); ok && recv == "" && isParam[rid.Name] {
+					return "param:" + rid.Name, sel.Sel.Name, true
+				}
+				if recv == "" {
 					return "", "", false
 				}
 				if rid, ok := sel.X.(*ast.Ident); ok && rid.Name == recv {
@@ -141,7 +170,7 @@ func genFlowFacts(repo string) (string, error) {
 	}
 	var b strings.Builder
 	b.WriteString("/- generated from /repo by `vharness -stream astfacts` on every run; do not edit -/\nnamespace Generated\n\n")
-	b.WriteString("/-- one call on the receiver (`target = \"self\"`), on its `base` / `backup` filesystem, or a plain\nassignment (`target = \"assign\"`, `results` = the identifier, `args` = the right-hand side), in source order -/\n")
+	b.WriteString("/-- one call on the receiver (`target = \"self\"`), on its `base` / `backup` filesystem, of a package-level\nfunction (`\"pkg\"`), on a parameter of a package-level function (`\"param:<name>\"`, `recv = \"\"`), or a plain\nassignment (`target = \"assign\"`, `results` = the identifier, `args` = the right-hand side), in source order -/\n")
 	b.WriteString("structure FlowFact where\n  recv : String\n  method : String\n  target : String\n  callee : String\n  args : List String\n  results : List String\nderiving Repr, DecidableEq\n\n")
 	b.WriteString("def flowFacts : List FlowFact := [\n")
 	for i, f := range facts {
